@@ -1048,7 +1048,7 @@ def run(ctx):
     dtypes = ["complex128", "float64", "complex64", "float32"]
 
     # S->C 1: behaviours of the tensor-level algebra model
-    behs = MM.simulated_behaviours(ctx, 60 if quick else 600)
+    behs = MM.simulated_behaviours(ctx, 50 if quick else 600)
     rng = random.Random(900 + seed)
     for k, b in enumerate(behs):
         w = replay_algebra(b, ntr, "complex64" if k % 4 == 3 else "complex128", rng)      # (the model's data is complex)
@@ -1063,7 +1063,7 @@ def run(ctx):
     cases = MM.compress_cases(ctx)
     r2 = random.Random(901 + seed)
     r2.shuffle(cases)
-    ncase = 500 if quick else 6000
+    ncase = 300 if quick else 6000
     for k, c in enumerate(cases[:ncase]):
         w = replay_compress_case(c, ntr, dtypes[k % 4] if k % 5 == 0 else "complex128", 7000 + 13 * seed + k)
         recs += w.recs
